@@ -183,8 +183,17 @@ CHECK = (
     "    ok = u.base_value == 0 or 1e-290 < abs(u.base_value) < 1e290\n"
     "    logs = [float(p) * math.log10(abs(float(Unit(b).base_value))) for b, p in u.expr.as_coeff_Mul()[1].as_powers_dict().items() if b.is_Symbol and float(Unit(b).base_value) != 0]\n"
     "    ok = ok and sum(x for x in logs if x > 0) < 290 and sum(x for x in logs if x < 0) > -290\n"
+    "    def exact_ok():\n"
+    "        import mpmath, sympy\n"
+    "        with mpmath.workdps(60):\n"
+    "            c, rest = u.expr.as_coeff_Mul()\n"
+    "            ref = mpmath.mpf(c.p) / mpmath.mpf(c.q) if c.is_Rational else mpmath.mpf(float(c))\n"
+    "            for b, p in rest.as_powers_dict().items():\n"
+    "                if not (b.is_Symbol and p.is_Rational): return False\n"
+    "                ref *= mpmath.mpf(float(Unit(b).base_value)) ** (mpmath.mpf(p.p) / mpmath.mpf(p.q))\n"
+    "            return bool(ref != 0 and abs(mpmath.mpf(float(v.base_value)) - ref) <= abs(ref) * mpmath.mpf('1e-12') and abs(mpmath.mpf(float(u.base_value)) - ref) <= abs(ref) * mpmath.mpf('1e-9'))\n"
     "    if ok and tol is not None:\n"
-    "        assert (f(float(v.base_value), float(u.base_value)) or math.isclose(float(v.base_value), float(u.base_value), rel_tol=tol)) and (math.isnan(u.base_value) or v == u), (u, t, v)\n"
+    "        assert (f(float(v.base_value), float(u.base_value)) or math.isclose(float(v.base_value), float(u.base_value), rel_tol=tol) or exact_ok()) and (math.isnan(u.base_value) or v == u), (u, t, v)\n"
     "    import sympy\n"
     "    if u.expr == 1 or not any(f.is_number for f in sympy.Mul.make_args(u.expr)):\n"
     "        assert v.expr == u.expr and hash(v) == hash(u), (u.expr, t, v.expr)\n"
